@@ -346,45 +346,80 @@ impl TwoState {
             }
             #[cfg(feature = "optim")]
             "optimize" => {
-                use volute::sop::optim::{optimize_esop_mip, optimize_sop_mip, optimize_sopes_mip};
                 let n = arg_usize(op, "n");
-                let fs: Vec<Lut> = op["fs"]
-                    .as_array()
-                    .unwrap()
-                    .iter()
-                    .map(|f| {
-                        let on: Vec<usize> = f.as_array().unwrap().iter().map(|x| x.as_u64().unwrap() as usize).collect();
-                        Lut::from_blocks(n, &pack(n, &on))
-                    })
-                    .collect();
-                let andc = op["andc"].as_i64().unwrap() as i32;
-                let xorc = op["xorc"].as_i64().unwrap() as i32;
-                let orc = op["orc"].as_i64().unwrap() as i32;
-                let none: Vec<Value> = Vec::new();
-                let r: Vec<Value> = match arg_str(op, "kind") {
-                    "sop" => optimize_sop_mip(&fs, andc, orc)
+                let fs: Vec<Lut> = op["fs"].as_array().unwrap().iter().map(|f| lut_of(n, f)).collect();
+                out.insert("r".into(), json!(run_opt(arg_str(op, "kind"), n, &fs, op)));
+            }
+            #[cfg(feature = "optim")]
+            "optimize_var" => {
+                // the same instance up to a permutation of the inputs and a reordering of the outputs: the minimum
+                // cost is the same.  Variants are built here, value by value (the specification recomputes them).
+                let n = arg_usize(op, "n");
+                let base: Vec<Vec<usize>> = op["fs"].as_array().unwrap().iter().map(|f| arg_list(&json!({"x": f}), "x")).collect();
+                let mut r: Vec<Value> = Vec::new();
+                let ident = json!({"perm": (0..n).collect::<Vec<usize>>(), "order": (0..base.len()).collect::<Vec<usize>>()});
+                for v in std::iter::once(&ident).chain(op["variants"].as_array().unwrap().iter()) {
+                    let perm = arg_list(v, "perm");
+                    let order = arg_list(v, "order");
+                    let vfs: Vec<Vec<usize>> = order
                         .iter()
-                        .map(|s| json!({"cubes": s.cubes().iter().map(proj_cube).collect::<Vec<_>>(), "ecubes": none,
-                                        "vals": vals_of(n, |m| s.value(m)), "lut": enc(&Lut::from(s))}))
-                        .collect(),
-                    "sopes" => optimize_sopes_mip(&fs, andc, xorc, orc)
-                        .iter()
-                        .map(|(s, x)| json!({"cubes": s.cubes().iter().map(proj_cube).collect::<Vec<_>>(),
-                                             "ecubes": x.cubes().iter().map(proj_ecube).collect::<Vec<_>>(),
-                                             "vals": vals_of(n, |m| s.value(m) || x.value(m)),
-                                             "lut": enc(&(Lut::from(s) | Lut::from(x)))}))
-                        .collect(),
-                    "esop" => optimize_esop_mip(&fs, andc, xorc)
-                        .iter()
-                        .map(|s| json!({"cubes": s.cubes().iter().map(proj_cube).collect::<Vec<_>>(), "ecubes": none,
-                                        "vals": vals_of(n, |m| s.value(m)), "lut": enc(&Lut::from(s))}))
-                        .collect(),
-                    _ => panic!("HARNESS: bad optimizer kind"),
-                };
+                        .map(|&j| {
+                            (0..(1usize << n))
+                                .filter(|&y| {
+                                    let mut x = 0usize;
+                                    for i in 0..n {
+                                        if (y >> i) & 1 == 1 {
+                                            x |= 1 << perm[i];
+                                        }
+                                    }
+                                    base[j].contains(&x)
+                                })
+                                .collect()
+                        })
+                        .collect();
+                    let luts: Vec<Lut> = vfs.iter().map(|on| Lut::from_blocks(n, &pack(n, on))).collect();
+                    r.push(json!({"fs": vfs, "sol": run_opt(arg_str(op, "kind"), n, &luts, op)}));
+                }
                 out.insert("r".into(), json!(r));
             }
             _ => panic!("HARNESS: unknown two-level op {}", name),
         }
         out
+    }
+}
+
+#[cfg(feature = "optim")]
+fn lut_of(n: usize, f: &Value) -> Lut {
+    let on: Vec<usize> = f.as_array().unwrap().iter().map(|x| x.as_u64().unwrap() as usize).collect();
+    Lut::from_blocks(n, &pack(n, &on))
+}
+
+/// One call of a MIP optimizer; every returned form projected through the public accessors
+#[cfg(feature = "optim")]
+fn run_opt(kind: &str, n: usize, fs: &[Lut], op: &Value) -> Vec<Value> {
+    use volute::sop::optim::{optimize_esop_mip, optimize_sop_mip, optimize_sopes_mip};
+    let andc = op["andc"].as_i64().unwrap() as i32;
+    let xorc = op["xorc"].as_i64().unwrap() as i32;
+    let orc = op["orc"].as_i64().unwrap() as i32;
+    let none: Vec<Value> = Vec::new();
+    match kind {
+        "sop" => optimize_sop_mip(fs, andc, orc)
+            .iter()
+            .map(|s| json!({"cubes": s.cubes().iter().map(proj_cube).collect::<Vec<_>>(), "ecubes": none,
+                            "vals": vals_of(n, |m| s.value(m)), "lut": enc(&Lut::from(s))}))
+            .collect(),
+        "sopes" => optimize_sopes_mip(fs, andc, xorc, orc)
+            .iter()
+            .map(|(s, x)| json!({"cubes": s.cubes().iter().map(proj_cube).collect::<Vec<_>>(),
+                                 "ecubes": x.cubes().iter().map(proj_ecube).collect::<Vec<_>>(),
+                                 "vals": vals_of(n, |m| s.value(m) || x.value(m)),
+                                 "lut": enc(&(Lut::from(s) | Lut::from(x)))}))
+            .collect(),
+        "esop" => optimize_esop_mip(fs, andc, xorc)
+            .iter()
+            .map(|s| json!({"cubes": s.cubes().iter().map(proj_cube).collect::<Vec<_>>(), "ecubes": none,
+                            "vals": vals_of(n, |m| s.value(m)), "lut": enc(&Lut::from(s))}))
+            .collect(),
+        _ => panic!("HARNESS: bad optimizer kind"),
     }
 }
